@@ -32,6 +32,16 @@ class Unsupported(AnalysisError):
     pass
 
 
+class _Lit(ast.expr):
+    """A syntax-tree leaf that stands for an already evaluated value (getattr(obj, "name") -> obj.name)."""
+
+    _fields = ()
+
+    def __init__(self, value: Any):
+        super().__init__()
+        self.value_ = value
+
+
 class PureModule:
     """`import operator`: the module's pure functions on plain values (a model object as an operand is refused - its
     dunder methods would not be consulted)."""
@@ -270,7 +280,9 @@ class Ev:
             return v
         return self._ev(n)
 
-    def _ev(self, n: ast.expr) -> Any:  # noqa: PLR0911, PLR0912
+    def _ev(self, n: ast.expr) -> Any:
+        if isinstance(n, _Lit):
+            return n.value_  # noqa: PLR0911, PLR0912
         self.steps += 1
         if self.steps > self.max_steps:
             raise Unsupported(f"{self.where}: evaluation does not terminate within {self.max_steps} steps on the model")
@@ -286,6 +298,8 @@ class Ev:
                 raise _ModelRaise(f"UnboundLocalError: {n.id}")
             if getattr(SAFE_BUILTINS.get(n.id), "_sa_attrs", None):  # a library callable with attributes (chain.from_iterable)
                 return SAFE_BUILTINS[n.id]
+            if n.id in ("list", "tuple", "str", "int", "len", "sorted", "bool", "set", "frozenset", "dict", "min", "max", "sum", "abs", "ord", "chr", "repr"):
+                return SAFE_BUILTINS[n.id]  # a built-in used as a value: map(len, xs), key=str, setdefault(k, list())
             if self.env.get("__closed_world__") and not hasattr(builtins, n.id):
                 # the environment holds everything the evaluated module can see (an emitted module whose imports
                 # the caller has supplied): a name that is bound nowhere is the program's NameError, not our gap
@@ -563,7 +577,7 @@ class Ev:
                     else:
                         self.env[k] = v0
         callee_is_model = (isinstance(f, ast.Name) and f.id in self.env and callable(self.env[f.id])) or isinstance(f, ast.Attribute)
-        if n.keywords and not callee_is_model and not all(k.arg in ("key", "reverse", "default", "start", "strict") for k in n.keywords):
+        if n.keywords and not callee_is_model and not all(k.arg in ("key", "reverse", "default", "start", "strict", "maxlen") for k in n.keywords):
             raise self.bad(n, "keyword arguments")
         if isinstance(f, ast.Name):
             if f.id == "isinstance":
@@ -642,14 +656,35 @@ class Ev:
             if f.id == "iter":
                 # a real iterator: a loop that breaks out of it and comes back later goes on where it stopped
                 return ModelIter(self.iterate(self.ev(n.args[0])))
-            if f.id == "next" and n.args and isinstance(self.ev(n.args[0]), ModelIter):
+            if f.id == "next" and n.args and "next" not in self.env:
                 it = self.ev(n.args[0])
+                if isinstance(it, list) and isinstance(n.args[0], ast.Call):
+                    # next(gen_method(...)[, default]): the model runs a generator to the list of what it yields; a
+                    # fresh generator's first element is that list's first
+                    it = ModelIter(it)
+                if isinstance(it, ModelIter):
+                    try:
+                        return next(it)
+                    except StopIteration:
+                        if len(n.args) > 1:
+                            return self.ev(n.args[1])
+                        raise _ModelRaise("StopIteration") from None
+                raise self.bad(n, "next() of something that is not a model iterator")
+            if f.id == "getattr" and len(n.args) in (2, 3) and "getattr" not in self.env:
+                obj, name = self.ev(n.args[0]), self.ev(n.args[1])
+                if not isinstance(name, str) or not name.isidentifier():
+                    raise self.bad(n, "getattr with a computed name")
                 try:
-                    return next(it)
-                except StopIteration:
-                    if len(n.args) > 1:
-                        return self.ev(n.args[1])
-                    raise _ModelRaise("StopIteration") from None
+                    return self.ev(ast.copy_location(ast.Attribute(value=_Lit(obj), attr=name, ctx=ast.Load()), n))
+                except _ModelRaise as err:
+                    if "AttributeError" in str(err) and len(n.args) == 3:
+                        return self.ev(n.args[2])
+                    raise
+            if f.id == "deque" and "deque" not in self.env and not [k for k in n.keywords if k.arg != "maxlen"]:
+                import collections  # a bounded window over a finished sequence: the real thing, on model values
+
+                ml = next((self.ev(k.value) for k in n.keywords if k.arg == "maxlen"), None)
+                return list(collections.deque(self.iterate(self.ev(n.args[0])) if n.args else [], maxlen=ml))
             if f.id in ("map", "filter") and len(n.args) == 2:
                 fn_node = n.args[0]
                 seq = self.iterate(self.ev(n.args[1]))
